@@ -230,7 +230,9 @@ FieldBytes(f, v) ==
          ELSE IF Len(v.v) > MaxCount(pl) THEN [k |-> "over", b |-> <<>>]
          ELSE [k |-> "ok", b |-> EncodeText(ZDigits(Len(v.v), pl)) \o v.v]
     ELSE LET t == TextOf(f, v) IN
-         IF ~t.ok \/ ~EncodeOk(t.s) THEN [k |-> "undef", b |-> <<>>]
+         IF ~t.ok THEN [k |-> "undef", b |-> <<>>]
+         \* text with a character the code page cannot express: "text in the chosen encoding" does not exist
+         ELSE IF ~EncodeOk(t.s) THEN [k |-> "unenc", b |-> <<>>]
          ELSE IF pl = 0
               THEN IF Len(t.s) > f.flen THEN [k |-> "undef", b |-> <<>>]
                    ELSE [k |-> "ok", b |-> EncodeText(PadRight(t.s, f.flen, 32))]
@@ -245,7 +247,7 @@ WithCarriers(m) ==
         ELSE [ok |-> TRUE, m |-> PutAll(m, [i \in 1..Len(packs) |-> <<DE(Carriers[i]), V("s", packs[i])>>])]
 PresentBits(m) == {n \in 2..128 : DE(n) \in DOMAIN m /\ NonEmpty(m[DE(n)])}
 
-\* k = "ok" (b is THE encoding) | "over" (must be refused) | "undef"
+\* k = "ok" (b is THE encoding) | "over" / "unenc" (must be refused) | "undef"
 Layout(m, hex) ==
     LET wc == WithCarriers(m)
         m2 == wc.m
@@ -256,6 +258,9 @@ Layout(m, hex) ==
         bm == BitmapOf(bits \cup {1})
         mtiok == MTIKEY \in DOMAIN m /\ m[MTIKEY].t = "s" /\ EncodeOk(m[MTIKEY].v) /\ Len(m[MTIKEY].v) = 4
     IN  IF \E i \in 1..Len(fbs) : fbs[i].k = "over" THEN [k |-> "over", b |-> <<>>]
+        ELSE IF (\E i \in 1..Len(fbs) : fbs[i].k = "unenc") /\ (\A i \in 1..Len(fbs) : fbs[i].k # "undef") /\ wc.ok
+             THEN [k |-> "unenc", b |-> <<>>]
+        ELSE IF (\E i \in 1..Len(fbs) : fbs[i].k = "unenc") THEN [k |-> "undef", b |-> <<>>]
         ELSE IF ~wc.ok \/ ~mtiok \/ (\E i \in 1..Len(fbs) : fbs[i].k = "undef") THEN [k |-> "undef", b |-> <<>>]
         ELSE [k |-> "ok", b |-> TLCEval(EncodeText(m[MTIKEY].v) \o (IF hex THEN Hexlify(bm) ELSE bm)
                                         \o Cat([i \in 1..Len(fbs) |-> fbs[i].b]))]
